@@ -775,6 +775,12 @@ func isKnownMethod(m string) bool {
 // flameRegister registers one single-method route whose handler records its
 // index and a copy of the parameters; a registration panic is returned.
 func flameRegister(f *flamego.Flame, method, txt string, idx int, hit *int, seen *map[string]string) (rt *flamego.Route, pan interface{}) {
+	return flameRegisterVia(f, false, method, txt, idx, hit, seen)
+}
+
+// flameRegisterVia: viaRoutes = the method string is a comma list given to Routes() (one Route object for all
+// of them); otherwise it is given to Route() as it is.
+func flameRegisterVia(f *flamego.Flame, viaRoutes bool, method, txt string, idx int, hit *int, seen *map[string]string) (rt *flamego.Route, pan interface{}) {
 	defer func() {
 		if x := recover(); x != nil {
 			pan = x
@@ -790,8 +796,8 @@ func flameRegister(f *flamego.Flame, method, txt string, idx int, hit *int, seen
 		// handlers own the map they are given: what one request leaves in it must never reach another request
 		c.Params()["left-behind-by-an-earlier-request"] = txt
 	}
-	if strings.Contains(method, ",") {
-		rt = f.Routes(txt, method, h) // a method list: one Route object for all of them
+	if viaRoutes {
+		rt = f.Routes(txt, method, h)
 		return
 	}
 	rt = f.Route(method, txt, []flamego.Handler{h})
